@@ -213,6 +213,26 @@ def run_expression(col, tier):
         col.check("C02.O9", "Form mixed (u, p) blocks, parallel=%s sym=%s" % (parallel, sym_),
                   "the list of upper-triangle weak forms assembles to the symmetric block matrix of the equivalent array forms (sym=True exploits the symmetry of the diagonal blocks; an off-diagonal block pairs two different fields and has no such symmetry)", chk_mixed)
 
+    # ---- the off-diagonal block couples the *value* of the first field with the *gradient* of the second (v . grad p): test and trial
+    # function come from different regions that both carry gradients
+    Gup = symarray("Gup", (2, 2, nq, nc))
+
+    def w_ugp(vv, pp, **kw):
+        return npmodel.einsum("iqc,iLqc,kLqc->qc", np.asarray(vv), Gup, pp.grad)
+
+    for parallel in (False, True):
+        def chk_mixed_grad(parallel=parallel):
+            form = it.call(it.call(Form, [], dict(v=fcm, u=fcm)), [[w_uu, w_ugp, w_pp]], {})
+            K = micro.dense(it.call_method(form, "assemble", [], dict(v=fcm, u=fcm, parallel=parallel)))
+            Kuu = ref_bilinear(ra, ra, 2, 2, lambda i, J, k, L, q, c: A2[i, J, k, L, q, c], True, True)
+            Kup = ref_bilinear(ra, rb, 2, 1, lambda i, J, k, L, q, c: Gup[i, L, q, c], False, True)
+            Kpp = ref_bilinear(rb, rb, 1, 1, lambda i, J, k, L, q, c: Cpp[q, c], False, False)
+            want = np.concatenate([np.concatenate([Kuu, Kup], axis=1), np.concatenate([Kup.T, Kpp], axis=1)], axis=0)
+            bad = diff_dense(K, want)
+            return not bad, "assembly/expression/_bilinear.py BilinearForm.integrate (parallel=%s): %s" % (parallel, "; ".join(bad[:3]))
+        col.check("C02.O9", "Form mixed (u, p) blocks with v . grad(p) coupling, parallel=%s" % parallel,
+                  "the trial function handed to an off-diagonal weak form carries the gradient of the *trial* field's basis (another region than the test field's)", chk_mixed_grad)
+
     # ---- update protocol: a form created on one container and assembled on another (or after a region reload) uses the fields it is given
     ra2, rb2 = _regions("n")
     v2 = micro.make_fields(it, [("Field", 2, 0)], ra2, rb2)[0]
@@ -237,6 +257,30 @@ def run_expression(col, tier):
         bad = diff_dense(K, want)
         return not bad, "assembly/expression/_expression.py FormExpression._init_or_update_forms: %s" % "; ".join(bad[:3])
     col.check("C02.O9", "Form with a trial container other than the test container", "rows come from the test fields' basis and indices, columns from the trial fields' (volumes: the test region's)", chk_other_trial)
+
+    def chk_dx():
+        # a differential volume array handed to Form(dx=...) (e.g. a weighted or a boundary measure) is the one the integrals are taken with
+        DX = symarray("DX", ra.dV.shape)
+        A5 = _A("A5", nq, nc, False)
+        form = it.call(it.call(Form, [], dict(v=fc, u=fc, dx=DX)), [[weak_of(A5)]], {})
+        K = micro.dense(it.call_method(form, "assemble", [], dict(v=fc, u=fc)))
+        keep = ra.dV
+        ra.dV = DX
+        try:
+            want = ref_bilinear(ra, ra, 2, 2, lambda i, J, k, L, q, c: A5[i, J, k, L, q, c], True, True)
+        finally:
+            ra.dV = keep
+        bad = diff_dense(K, want)
+        lin = it.call(it.call(Form, [], dict(v=fc, dx=DX)), [[weak_lin]], {})
+        rl = micro.dense(it.call_method(lin, "assemble", [], dict(v=fc)))
+        ra.dV = DX
+        try:
+            wantl = ref_linear(ra, 2, lambda i, J, q, c: Pm[i, J, q, c], True)
+        finally:
+            ra.dV = keep
+        badl = diff_dense(rl, wantl)
+        return not bad and not badl, "assembly/expression/_expression.py FormExpression (dx=...): bilinear %s; linear %s" % ("; ".join(bad[:2]), "; ".join(badl[:2]))
+    col.check("C02.O9", "Form with a given differential volume dx", "the documented argument dx replaces the region's differential volumes in the bilinear and in the linear form (it equals the array form with dV=dx)", chk_dx)
 
     def chk_reload():
         # the same container, but its region was reloaded in place (mesh moved): new basis gradients and volumes
